@@ -11,6 +11,8 @@ SEEDS = {
  "C14-A": ("/tmp/seed-S3/C14", "C14", "C14"), "C18-A": ("/tmp/seed-S3/C18", "C18", "C18"), "C13-A": ("/tmp/seed-S3/C13", "C13", "C13"),
  "C06-B": ("/tmp/seed-S4/C06-1", "C06", "C06"), "C06-C": ("/tmp/seed-S4/C06-2", "C06", "C06"), "C11-B": ("/tmp/seed-S4/C11-1", "C11", "C11"), "C11-C": ("/tmp/seed-S4/C11-2", "C11", "C11"),
  "C15-A": ("/tmp/seed-S4/C15-1", "C15", "C15"), "C15-B": ("/tmp/seed-S4/C15-2", "C15", "C15"), "C02-B": ("/tmp/seed-S4/C02-1", "C02", "C02"), "C02-C": ("/tmp/seed-S4/C02-2", "C02", "C02"),
+ "C05-A": ("/tmp/seed-S5/C05-1", "C05", "C05"), "C05-B": ("/tmp/seed-S5/C05-2", "C05", "C05"), "C07-A": ("/tmp/seed-S5/C07-1", "C07", "C07"), "C07-B": ("/tmp/seed-S5/C07-2", "C07", "C07"),
+ "C13-B": ("/tmp/seed-S5/C13-1", "C13", "C13"), "C13-C": ("/tmp/seed-S5/C13-2", "C13", "C13"), "C18-B": ("/tmp/seed-S5/C18-1", "C18", "C18"), "C18-C": ("/tmp/seed-S5/C18-2", "C18", "C18"),
  "C11-A": ("/tmp/seed-S4/C11", "C11", "C11"), "C12-A": ("/tmp/seed-S4/C12", "C12", "C12"), "C10-A": ("/tmp/seed-S4/C10", "C10", "C10"),
 }
 confirm = {}
